@@ -533,6 +533,49 @@ func Sleep(d time.Duration) {
 	s.SleepUntil(s.clock.Add(d))
 }
 
+// Settle lets every other runnable thread (background workers woken by a clock
+// advance, freshly spawned threads) run until all of them block again, in
+// ascending thread-id order under the default schedule. Sequential (E-seq)
+// harnesses call it after each event so that background work is deterministic.
+func Settle() {
+	s := active
+	if s == nil {
+		return
+	}
+
+	me := s.cur
+	s.Block("settle", func() bool {
+		for _, t := range s.threads {
+			if t != me && !t.done && s.runnable(t) {
+				return false
+			}
+		}
+
+		return true
+	})
+}
+
+// Sleepers returns the wake-up offsets (relative to the virtual now) of the
+// threads sleeping on the virtual clock, sorted; part of canonical state keys.
+func Sleepers() []time.Duration {
+	s := active
+	if s == nil {
+		return nil
+	}
+
+	var out []time.Duration
+
+	for _, t := range s.threads {
+		if !t.done && !t.sleepTo.IsZero() {
+			out = append(out, t.sleepTo.Sub(s.clock))
+		}
+	}
+
+	sort.Slice(out, func(i, j int) bool { return out[i] < out[j] })
+
+	return out
+}
+
 // Yield is an explicit scheduling point (used inside polling loops).
 func Yield() {
 	if s := active; s != nil {
